@@ -522,7 +522,25 @@ def rule_z8(repo):
             contrib.append(n.args[0])
         if isinstance(n, ast.For) and any(isinstance(c, ast.Call) and call_attr(c) in ('append', 'extend') and is_name(c.func.value, 'var_names') for c in ast.walk(n)):
             contrib.append(n.iter)
-    from_stripped = any(flow.names_closure(v) & stripped for v in contrib)
+    def free_names(e):
+        # names read by e, without the variables its own comprehensions bind (they are scoped to the comprehension: another loop of the
+        # function that happens to use the same letter says nothing about them)
+        bound = {x.id for c in ast.walk(e) if isinstance(c, ast.comprehension) for x in ast.walk(c.target) if isinstance(x, ast.Name)}
+        return {x.id for x in ast.walk(e) if isinstance(x, ast.Name)} - bound
+
+    def closure(e):
+        seen, todo = set(), list(free_names(e))
+        while todo:
+            nm = todo.pop()
+            if nm in seen:
+                continue
+            seen.add(nm)
+            if nm in flow.params:
+                continue
+            for _k, rhs in flow.defs.get(nm, []):
+                todo.extend(free_names(rhs))
+        return seen
+    from_stripped = any(closure(v) & stripped for v in contrib)
     bad = [] if from_stripped else defs
     res.add('prover/z3wrapper.py :: solve_core :: avoid-list-from-translated-formulas', not bad,
             'var_names is computed from %s' % ', '.join(sorted(stripped)) if not bad else
